@@ -14,6 +14,11 @@
    element-wise (exactly) with scalar evaluation.
    Transcendental fragments (exp/sin/cos, inverse Laplace bodies, sinc away from integers, complex s/z)
    are compared against mpmath / exact Gaussian rationals in the harness only (recorded as harness_only).
+5. Round 3 (harness/c17_sim.py, translate/tx_simresp.py): Generated/SimCompanion.lean (companion formulas, step size, stamp,
+   impulse-invariance kernel times from the source text of simulator.py / sexpr.py); Props/C17Sim.lean, C17Resp.lean, C17Limit.lean,
+   C17Float.lean; streams G (cct.sim vs the Lean stepper and the Lean law predicate), H (response() models, lag-indexed
+   convolution Spec, start-time invariance, convergence), I (causal flag through subs / + / - / *), J (which limit fallback
+   applies and its value), K (float tests: evaluate() == the straight-line float program, by Lean Float).
 """
 import json
 import math
@@ -42,8 +47,9 @@ HELPERS = ['Lcapy/Proofs/SpecialFnBase.lean', 'Lcapy/Model/Evaluate.lean', 'Lcap
            'Lcapy/Model/EvalFallback.lean', 'Lcapy/Spec/SpecialFn.lean', 'Lcapy/Generated/SpecialFn.lean',
            'Lcapy/Driver/C17.lean', 'Lcapy/Driver/C17Sim.lean', 'Lcapy/Model/SimBase.lean', 'Lcapy/Model/SimStep.lean',
            'Lcapy/Model/Response.lean', 'Lcapy/Generated/SimCompanion.lean', 'Lcapy/Proofs/SimStepBase.lean',
-           'Lcapy/Proofs/ResponseBase.lean']
-PROPS = ['Lcapy/Props/C17.lean', 'Lcapy/Props/C17Sim.lean', 'Lcapy/Props/C17Resp.lean']
+           'Lcapy/Proofs/ResponseBase.lean', 'Lcapy/Model/EvalLimit.lean', 'Lcapy/Proofs/EvalLimitBase.lean', 'Lcapy/Model/FloatEval.lean',
+           'Lcapy/Generated/FloatTests.lean']
+PROPS = ['Lcapy/Props/C17.lean', 'Lcapy/Props/C17Sim.lean', 'Lcapy/Props/C17Resp.lean', 'Lcapy/Props/C17Limit.lean', 'Lcapy/Props/C17Float.lean']
 
 CONT_FNS = ['heaviside', 'dirac', 'sign', 'rect', 'tri', 'ramp', 'rampstep', 'sincn', 'sincu', 'sinc']
 DISC_FNS = ['unitstep', 'unitimpulse', 'dtrect', 'dtsign']
@@ -368,6 +374,21 @@ def run(chk, replay=None):
                 f.write(text2)
     chk.coverage['translator_simresp'] = {'status': 'ok' if not info2['unparsed'] else 'partial', 'unparsed': info2['unparsed'],
                                           'pruned_guards': info2['pruned_guards'], 'definitions': info2['defs']}
+    # ---- float tests (goal G1): a small table for the kernel (`decide +kernel` in Props/C17Float.lean), generated BEFORE the build from
+    # the real evaluate(); the same comparison runs for a few hundred inputs through the driver in stream K
+    L = Real()
+    import random as _random
+    ftab = []
+    SS0 = c17_sim.SimStreams(dict(chk=chk, drv=None, L=L, rng=_random.Random('C17-float-%d' % chk.seed), quick=(chk.tier == 'quick'), counter={'n': 0},
+                                  disagree=None, ho=None, time_limit=time_limit, Timeout=Timeout, toks=toks))
+    float_rows = SS0.float_table(12 if chk.tier == 'quick' else 48)
+    ftext = c17_sim.float_table_text(float_rows)
+    fpath = os.path.join(common.LEAN, 'Lcapy', 'Generated', 'FloatTests.lean')
+    with common.LakeLock():
+        if not os.path.exists(fpath) or open(fpath).read() != ftext:
+            with open(fpath, 'w') as f:
+                f.write(ftext)
+    chk.coverage['float_kernel_table_rows'] = len(float_rows)
     # ---- 2. proofs
     broken = chk.lean(PROPS, helper_files=HELPERS, leanchecker=(chk.tier == 'thorough'))
     chk.coverage['trusted_base'] = chk.coverage['trusted_base'] + [
@@ -376,6 +397,10 @@ def run(chk, replay=None):
         'the transcendental tails of the sinc family (Model/EvalBase.lean: sinPiOverPi, sinOver, psincExact/psincFloat) and the '
         'float tolerance 1e-9*scale: floating-point rounding is outside the model',
         'Spec/SpecialFn.lean as the reading of doc/expressions.rst "Special functions"',
+        'tx_simresp.py (Python ast reading of simulator.py / sexpr.py); the hand reading of C._r_model / L._r_model (Thevenin companion '
+        'R n1 d, V d n2 with a fresh dummy node) and of numpy.convolve / scipy.signal.lfilter (C13 definitions lfilterPy, convolvePy), validated '
+        'by the correspondence; the untrusted Gauss-Jordan solver of the driver is NOT trusted (every step is row-checked by checkSolves)',
+        'Lean `Float` (IEEE binary64 in the kernel and in the compiled driver) for the float TESTS; SymPy lambdify source text read with ast',
     ]
     chk.assumptions += ['floats: a numeric result r_float matches an exact rational r when |r_float - r| <= 1e-9 * scale '
                         '(scale = max(1, |r|, magnitude bound of the intermediate terms))',
@@ -393,7 +418,6 @@ def run(chk, replay=None):
                 raise common.Infra('driver rejected request %r -> %s' % (line[:200], r))
             return r
     drv = Strict()
-    L = Real()
     sym, np, mp = L.sym, L.np, L.mp
     rng = chk.rng
     quick = chk.tier == 'quick'
@@ -405,9 +429,34 @@ def run(chk, replay=None):
         'at dyadic points (negative, zero, large), scalar + list/tuple/ndarray; causal stream: sums of products with '
         'Heaviside/DiracDelta/UnitStep/UnitImpulse factors of affine arguments; guard stream: inverse Laplace with and '
         'without causal at negative/non-negative times.  non-trivial = the model gives a value (not `other`) and the '
-        'expression contains the variable; distinct by (tokens, point, form)')
+        'expression contains the variable; distinct by (tokens, point, form).  Round 3: sim stream = 8 circuit templates (RC, RL, RLC, '
+        'parallel RC, I-driven RCL, two-capacitor ladder, high-pass, floating L) x source shapes (step, ramp, affine, delayed, two-term) x '
+        '7 rational grid kinds (uniform, random, fine-coarse, doubling, negative start, quadratic) x both integrators, every step of '
+        'every run judged by the Lean law predicate; polynomial-exactness and refined-grid convergence cases; response stream = random '
+        'H(s) of order <= 2 (+ whole-sample delay) x 7 method names x start times (0, negative, positive), polynomial-kernel impulse '
+        'invariance, start-time shift pairs for every method; causal-ops stream = 3 ways of obtaining the causal flag x '
+        '{subs, call, +, reversed +, -, *}; fallback stream = common zeros of multiplicities (kp, kq) at dyadic points x 6 argument forms; '
+        'float stream = Horner-form rational functions x 6 float points, bit-for-bit')
     disagreements = []
     counter = {'n': 0}
+    # which kinds of counterexample (new or known) this run has produced: a correspondence disagreement is only explained by a
+    # counterexample of a RELATED kind (an unrelated known finding must not hide it)
+    seen_kinds = set()
+    _orig_ce = chk.counterexample
+
+    newce = {'n': 0}
+
+    def _ce(key, replay_, what):
+        seen_kinds.add(key.get('kind'))
+        r_ = _orig_ce(key, replay_, what)
+        if r_:
+            newce['n'] += 1
+        return r_
+    chk.counterexample = _ce
+    RELATED = {'numericDef': {'special_fn'}, 'symbolicDef': {'special_fn'}, 'causal-mask': {'causal', 'special_fn'}, 'isCausal': {'causal'},
+               'evalNumeric': {'expr', 'special_fn'}, 'evalNumeric-guard': {'expr', 'guard'}, 'evalSymbolic': {'expr', 'special_fn'},
+               'evalSymbolic-guard': {'expr', 'guard'}, 'evaluateArg': {'array', 'expr'}, 'simStep-acceptance': {'sim'}, 'simRun': {'sim'},
+               'respBilinear': {'response'}, 'respBilinear-acceptance': {'response'}, 'respII': {'response'}, 'evalRatfun': {'fallback', 'array'}}
     harness_only = {'compared': 0, 'failed': 0, 'what': {}}
 
     def ho(kind, ok, detail=None):
@@ -1100,6 +1149,12 @@ def run(chk, replay=None):
         if inp.get('stream') == 'sim':
             SS.check_sim(parse_netlist(inp['netlist']), [Fraction(z) for z in inp['grid']], inp['integrator'], 'recorded', 'recorded', origin=origin)
             return True
+        if inp.get('stream') == 'sim-exact':
+            SS.check_sim(parse_netlist(inp['netlist']), [Fraction(z) for z in inp['grid']], inp['integrator'], 'recorded', 'recorded', origin=origin)
+            return True
+        if inp.get('stream') == 'resp-ii':
+            SS.run_resp_ii([Fraction(z) for z in inp['kernel']], Fraction(inp['q0']), Fraction(inp['dt']), Fraction(inp['t0']), [Fraction(z) for z in inp['x']])
+            return True
         if inp.get('stream') == 'table':
             check_table(inp['fn'], inp['var'], Fraction(inp['x']), origin=origin)
             return True
@@ -1206,17 +1261,32 @@ def run(chk, replay=None):
         SS.check_resp_shift(i)
     for i in range(48 if quick else 480):
         SS.check_causal_ops(i)
+    for i in range(12 if quick else 120):
+        SS.check_fallback(i)
+    for i in range(4 if quick else 30):
+        SS.check_complex_array(i)
+    # the rows of the kernel-checked table again through the driver, then fresh inputs
+    for prog, xb, rb in float_rows:
+        chk.count('float_tests', 'kernel-table-row-' + ('bit-identical' if drv.ask1('flt.run %d %s' % (xb, ' '.join(prog))) == str(rb) else 'DIFFERENT'))
+    for i in range(40 if quick else 400):
+        SS.check_float(i, [])
     chk.coverage['harness_only'] = harness_only
 
     # ---- classification of broken obligations / correspondence with no counterexample
     chk.coverage['correspondence']['samples_of_disagreement'] = disagreements[:6]
-    if broken and counter['n'] == 0 and not chk.known_seen:
+    # a broken obligation is explained only by a NEW counterexample of this run (known findings break no theorem: the theorems
+    # are about the model of the current source, and the known defects are outside it)
+    if broken and newce['n'] == 0:
         for b in broken[:20]:
             chk.unexplained('broken-obligation', b, chk.coverage.get('build_log_tail', '')[-600:])
     elif broken:
         chk.coverage['broken_obligations_explained_by_counterexamples'] = True
-    if disagreements and counter['n'] == 0 and not chk.known_seen:
-        chk.unexplained('broken-correspondence', disagreements[0]['what'], disagreements[0])
+    unexplained_whats = []
+    for dgr in disagreements:
+        w = dgr['what']
+        if w not in unexplained_whats and not (RELATED.get(w, set()) & seen_kinds):
+            unexplained_whats.append(w)
+            chk.unexplained('broken-correspondence', w, dgr)
     if info['unparsed']:
         chk.coverage['translator']['note'] = 'unparsed items fall back on the hand model and are vouched for by the correspondence only'
 
